@@ -360,6 +360,13 @@ def baseline_source(file: str) -> str:
 
 
 # ---- running ---------------------------------------------------------------------------------
+def _limits() -> None:
+    """A mutant may allocate without bound (a loop that no longer pops): cap the address space."""
+    import resource
+
+    resource.setrlimit(resource.RLIMIT_AS, (6 << 30, 6 << 30))
+
+
 def run_one(m: dict) -> dict:
     res = dict(m)
     scratch = tempfile.mkdtemp(prefix="amut-", dir="/dev/shm" if os.path.isdir("/dev/shm") else None)
@@ -383,11 +390,11 @@ def run_one(m: dict) -> dict:
                 shutil.copy(s, d)
         open(os.path.join(scratch, "src", "asphalt", "core", m["file"]), "w").write(new)
         env = dict(os.environ, PYTHONPATH=os.path.join(scratch, "src"), PYTHONDONTWRITEBYTECODE="1")
-        cmd = ["timeout", "400", "/venv/bin/python", "-m", "pytest", "-q", "-p", "no:cacheprovider", "-x", "--timeout=60", "tests"]
+        cmd = ["timeout", "-k", "5", "300", "/venv/bin/python", "-m", "pytest", "-q", "-p", "no:cacheprovider", "-x", "--timeout=60", "tests"]
         for t in ALWAYS_FAIL:
             cmd += ["--deselect", t]
         t0 = time.time()
-        p = subprocess.run(cmd, cwd=scratch, env=env, capture_output=True, text=True)
+        p = subprocess.run(cmd, cwd=scratch, env=env, capture_output=True, text=True, preexec_fn=_limits)
         res["tests_pass"] = p.returncode == 0
         res["tests_s"] = round(time.time() - t0, 1)
         if not res["tests_pass"]:
@@ -404,8 +411,8 @@ def run_one(m: dict) -> dict:
             flag = os.path.join(scratch, "STOP_" + pr)
             env2["VERIF_SCREEN"] = flag
             t0 = time.time()
-            p = subprocess.run(["timeout", "600", os.path.join(VERIF, "check"), pr, "--no-evidence"], cwd=VERIF, env=env2,
-                               capture_output=True, text=True)
+            p = subprocess.run(["timeout", "-k", "5", "600", os.path.join(VERIF, "check"), pr, "--no-evidence"], cwd=VERIF, env=env2,
+                               capture_output=True, text=True, preexec_fn=_limits)
             det = [l.strip()[:300] for l in p.stdout.splitlines() if l.startswith("  [")][:1]
             res["checks"][pr] = {"exit": p.returncode, "s": round(time.time() - t0, 1), "detail": det,
                                  "err": (p.stdout + p.stderr)[-300:] if p.returncode not in (0, 1) else ""}
